@@ -67,7 +67,7 @@ def events_for(lines, problems, where):
     flat = []
     for text in lines:
         for ln in text.split("\n"):
-            ln = ln.strip()
+            ln = extract_capsule.unhint(ln)
             if ln and ln not in ("{+", "-}", "-}}", "{{+"):
                 flat.append(ln)
     for i, ln in enumerate(flat):
@@ -148,7 +148,7 @@ def flat_lines(texts):
     out = []
     for text in texts or []:
         for ln in text.split("\n"):
-            ln = ln.strip()
+            ln = extract_capsule.unhint(ln)
             if ln:
                 out.append(ln)
     return out
